@@ -2773,3 +2773,45 @@ def spec_shell_adapter_index(fns, consts):
 
 spec_shell_adapter_index.crate = "clap_complete"
 SPECS["C18"].append(spec_shell_adapter_index)
+
+
+# ------------------------------------------------------------------ C19: the version section never panics
+
+def spec_mangen_version(fns, consts):
+    """clap_mangen render::version and Man::_render_version_section (reached by the PUBLIC
+    Man::render_version_section for any command): no Option::unwrap / expect is applied to a lookup that
+    can be None - the section is rendered from whichever of long_version / version exists and is empty
+    when neither does."""
+    con = contracts.Contracts(fns, default_pure=True)
+    con.check_unwrap = r".*"
+    ctx = symex.Ctx(consts, con)
+    obs, enc = [], []
+    for name in ("version", "_render_version_section"):
+        c = [f for n, f in fns.items() if n == name or n.endswith("::" + name)]
+        if len(c) != 1:
+            obs.append({"fn": "clap_mangen", "block": "shape", "kind": "spec", "target": "mangen_version", "msg": f"{name} not found exactly once", "pc": [], "neg": "true"})
+            continue
+        fn = c[0].get()
+        ex = symex.Exec(ctx, fn, [("opq", f"mv_a{i}") for i in range(len(fn.params))])
+        ex.run(havoc_unassigned=True, cut_loops=True)
+        k = 0
+        for o in ex.obligations:
+            if o["kind"] == "panic":
+                o2 = dict(o)
+                o2.update({"kind": "spec", "target": "mangen_version", "msg": f"{name}: " + o["msg"][:90]})
+                obs.append(o2)
+                k += 1
+        # an eager `.unwrap()` hidden in an argument position shows up as a call too
+        for ca in list(ex.return_callargs) + [e.get("#callargs", ()) for _, e in ex.cuts]:
+            for cl in ca:
+                if re.search(r"^Option::<.*>::(unwrap|expect)$", cl[0]) and not any(cl[0] in o["msg"] or True for o in obs if o["fn"] == fn.name):
+                    obs.append({"fn": fn.name, "block": "call", "kind": "spec", "target": "mangen_version", "msg": f"{name}: {cl[0]} on a value that can be None", "pc": [], "neg": "true"})
+                    k += 1
+        enc.append(_enc(fn, ex, k))
+    if not obs:
+        obs.append({"fn": "clap_mangen", "block": "shape", "kind": "spec", "target": "mangen_version", "msg": "no unwrap/expect in the version rendering", "pc": [], "neg": "false"})
+    return ctx, obs, enc, con
+
+
+spec_mangen_version.crate = "clap_mangen"
+SPECS["C19"].append(spec_mangen_version)
